@@ -352,15 +352,16 @@ def judge(sc, cases, invariant):
             json.dump(stripped, f)
         # AtomicOK is listed first: a case whose decision is wrong is reported under it, a case that only
         # leaves a wrong rule store behind under Conforms (TLC reports the first violated invariant of a state)
-        inv = 'AtomicOK\nINVARIANT Conforms' if invariant == 'Conforms' else invariant
+        # (NoDrift comes last: drift is only counted for cases whose verdict is fine)
+        inv = 'AtomicOK\nINVARIANT Conforms\nINVARIANT NoDrift' if invariant == 'Conforms' else invariant
         res = tlc.run('Conf_LoaderMT', CONF_CFG % (sc, 'FALSE', 'FALSE' if sc in MERGE_MODE else 'TRUE', inv), env={'VERIF_CASES': path}, cont=True, timeout=3000)
     finally:
         os.unlink(path)
     bad = {}
     for v in res.violations:
-        if v['name'] not in (invariant, 'AtomicOK'):
+        if v['name'] not in (invariant, 'AtomicOK', 'NoDrift'):
             raise tlc.TLCError('unexpected violation %s\n%s' % (v['name'], v['text'][:1500]))
-        bad[int(re.findall(r'\bcid = (\d+)', v['text'])[-1])] = 'decision' if v['name'] == 'AtomicOK' else 'settled'
+        bad[int(re.findall(r'\bcid = (\d+)', v['text'])[-1])] = {'AtomicOK': 'decision', 'NoDrift': 'drift'}.get(v['name'], 'settled')
     if res.distinct < len(cases):
         raise tlc.TLCError('Conf_LoaderMT: %d states for %d cases' % (res.distinct, len(cases)))
     return bad if invariant == 'Conforms' else sorted(bad)
@@ -469,7 +470,10 @@ def run(ctx):
         n_sched += len(cases)
         ctx.traces += len(cases)
         verdicts = judge(sc, cases, 'Conforms')
+        d = sorted(i for i, v in verdicts.items() if v == 'drift')
         for i in sorted(verdicts):
+            if verdicts[i] == 'drift':
+                continue
             c = cases[i - 1]
             n_bad += 1
             if verdicts[i] == 'settled' and not c['crashed']:
@@ -492,7 +496,6 @@ def run(ctx):
             ctx.violation(key, what, {'scenario': sc, 'shape': c['shape'], 'park_point_line_event': c['_k'], 'parked_at': c.get('_where'),
                                       'projected_state': fmt_state(c['rules'], c['frules']), 'decision': {'name': c['q'], 'role': c['role'], 'allow': c['allow']},
                                       'final_decisions': c['final'], 'old_files': old, 'edit': edit})
-        d = judge(sc, cases, 'NoDrift')
         drift += len(d)
         if d:
             ctx.note('MODEL-DRIFT %s: %d park points project to a rule-store state the specification\'s reloader does not pass through, e.g. %s'
